@@ -234,9 +234,10 @@ def check(chk):
         # previous game's player after an aborted game must be re-bound too), and the loop ranges over all modes
         hcfg = h.cfg()
         from sa.cfg import canon_set
+        from sa.helpers import positive, inloop_guards
         for x in sets:
             node = [n_ for n_ in hcfg.nodes if n_.kind == "stmt" and n_.ast is x][0]
-            g = {(k[4:], not v) if k.startswith("not ") else (k, v) for k, v in canon_set(hcfg.guards_at(node.id))}
+            g = set(positive(canon_set(hcfg.guards_at(node.id))))
             chk.ob("DOM-22", "ModeController.%s rebinds every game mode - nothing but `is_game_mode` selects" % fn, g == {("mode.is_game_mode", True)},
                    h.where(x), detail="selection %s" % sorted(g), construct=h.ident, text="mode.player selection " + fn)
         loops = [lp for lp in ast.walk(h.node) if isinstance(lp, ast.For) and any(y is sets[0] for y in ast.walk(lp))] if sets else []
@@ -249,7 +250,10 @@ def check(chk):
     st = [(n_, c_) for n_, c_ in bcfg.calls_named("stop") if src(c_.func.value) == "mode" and kwarg(c_, "callback") is not None]
     chk.need(len(st) == 1, "DOM-22", "_ball_ending stops the game modes with a completion callback", be)
     from sa.cfg import canon_set
-    g = {(k[4:], not v) if k.startswith("not ") else (k, v) for k, v in canon_set(bcfg.guards_at(st[0][0].id)) if "mode." in k}
+    from sa.helpers import positive, inloop_guards
+    blh = [h_ for h_ in bcfg.nodes if h_.kind == "loop" and any(y is st[0][1] for y in ast.walk(h_.ast))]
+    chk.need(blh, "DOM-22", "_ball_ending stops the game modes in a loop", be)
+    g = positive(inloop_guards(bcfg, st[0][0].id, blh[-1].id))
     chk.ob("DOM-22", "the turn does not change before every game mode that stops at ball end has stopped (none is exempted, e.g. one already stopping)",
            g == {("mode.is_game_mode", True), ("mode.auto_stop_on_ball_end", True)}, be.where(st[0][1]), detail="selection %s" % sorted(g), construct=be.ident,
            text="ball end waits for selection")
